@@ -12,8 +12,8 @@ Core Lean only.  The main definitions model the code *after* the proposed repair
 * eviction removes the oldest dictionary entry and every other entry that refers to the same
   instance object (`v is value`), instead of popping `len(keys)` entries.
 
-The behaviour of the unrepaired code is kept in `namespace Old` (end of file) for the proved
-counterexample.
+The behaviour of the unrepaired code (no longer in /repo) is kept, as documentation only, in
+`Lemmas/CacheOld.lean` (`namespace HcipyVerif.Cache.Old`); it is not part of the C05 evidence.
 
 Grids are represented by small ids standing for their hashes, wavelengths by ids standing for the
 log-rounded wavelength key (`int(round(log λ / log(1+1e-9)))`; the float formula is not modelled).
@@ -99,8 +99,9 @@ def St.clear (s : St) : St := { s with cache := [], num := 0 }
 /-- A public property setter: stores the new value (version bump) and calls `clear_cache()`. -/
 def St.setParam (s : St) : St := { s with cache := [], num := 0, ver := s.ver + 1 }
 
-/-- The mutant "setter without `clear_cache()`" (for the proved counterexample only). -/
-def St.setParamNoClear (s : St) : St := { s with ver := s.ver + 1 }
+/-- The mutant "setter without `clear_cache()`" (for the proved counterexample only; no driver op
+runs a `Mutant.*` definition and none is evidence about /repo). -/
+def Mutant.setParamNoClear (s : St) : St := { s with ver := s.ver + 1 }
 
 def lookup (cache : List (Key × Inst)) (k : Key) : Option Inst :=
   (cache.find? (fun p => p.1 = k)).map (·.2)
@@ -201,7 +202,7 @@ def specRun (e : Elem) : Nat → List Op → List Resp
 `FourierFilter` keeps the transfer function cast to one dtype and an internal array for one
 (dtype, tensor shape); `FastFourierTransform` keeps `internal_array`.  All follow one of two
 patterns: a *memo cell* (tag + value, recomputed when the requested tag differs) and a *scratch
-buffer* (fully rewritten before it is read). -/
+buffer* (fully rewritten before it is read; modelled by `Fft.loadArray`, Model/FftState.lean). -/
 
 /-- A memo cell: `tag` says what `val` was computed for. -/
 structure Memo (τ α : Type) where
@@ -213,8 +214,8 @@ def Memo.get {τ α} [DecidableEq τ] (compute : τ → α) (m : Memo τ α) (t 
   | some (t', v) => if t' = t then (m, v) else (⟨some (t, compute t)⟩, compute t)
   | none => (⟨some (t, compute t)⟩, compute t)
 
-/-- The mutant "matrices not rebuilt on dtype change". -/
-def Memo.getStale {τ α} (compute : τ → α) (m : Memo τ α) (t : τ) : Memo τ α × α :=
+/-- The mutant "matrices not rebuilt on dtype change" (for the proved counterexample only). -/
+def Mutant.memoGetStale {τ α} (compute : τ → α) (m : Memo τ α) (t : τ) : Memo τ α × α :=
   match m.slot with
   | some (_, v) => (m, v)
   | none => (⟨some (t, compute t)⟩, compute t)
@@ -222,126 +223,103 @@ def Memo.getStale {τ α} (compute : τ → α) (m : Memo τ α) (t : τ) : Memo
 /-- `_remove_matrices()` when nothing is to be kept. -/
 def Memo.drop {τ α} (_ : Memo τ α) : Memo τ α := ⟨none⟩
 
-/-- Zero-padding into the scratch buffer as `FastFourierTransform.forward` / `FourierFilter` do:
-`buf[:] = 0; buf[start : start+len x] = x`.  The result has the length of the buffer. -/
-def padInto {K} [OfNat K 0] (buf : List K) (start : Nat) (x : List K) : List K :=
-  (List.range buf.length).map fun p =>
-    if start ≤ p ∧ p < start + x.length then x.getD (p - start) 0 else 0
+/-! ### `ZoomFastFourierTransform`: a memo cell that owns memo cells
 
-/-- The mutant "`internal_array` not re-zeroed": old contents survive outside the cut-out. -/
-def padIntoStale {K} [OfNat K 0] (buf : List K) (start : Nat) (x : List K) : List K :=
-  (List.range buf.length).map fun p =>
-    if start ≤ p ∧ p < start + x.length then x.getD (p - start) 0 else buf.getD p 0
+`_compute_shifts_and_weights(dtype)` rebuilds the shifts *and constructs new `ChirpZTransform`
+objects* (`czts` for forward, `inv_czts` for backward) when the complex dtype differs from
+`_current_dtype`; each `ChirpZTransform` is itself a memo cell (`_current_dtype` + kernels). -/
 
-/-! ### The unrepaired code (for the counterexample) -/
-namespace Old
+structure Zoom (α : Type) where
+  /-- `ZoomFastFourierTransform._current_dtype` -/
+  tag : Option Nat
+  /-- the forward `ChirpZTransform`s (one per axis, all driven alike) -/
+  czt : Memo Nat α
+  /-- the backward `ChirpZTransform`s -/
+  inv : Memo Nat α
 
-structure Inst where
-  i : Option GridId
-  o : Option GridId
-  w : Option WlKey
-  ver : Nat
+def Zoom.fresh {α} : Zoom α := ⟨none, ⟨none⟩, ⟨none⟩⟩
+
+/-- `forward(field)` (`back = false`) / `backward(field)` with a field of complex dtype `t`:
+returns the kernel the chirp-z transforms use. -/
+def Zoom.call {α} (compute : Nat → α) (z : Zoom α) (back : Bool) (t : Nat) : Zoom α × α :=
+  let z1 : Zoom α := if z.tag = some t then z else ⟨some t, ⟨none⟩, ⟨none⟩⟩
+  if back then
+    let r := z1.inv.get compute t
+    ({ z1 with inv := r.1 }, r.2)
+  else
+    let r := z1.czt.get compute t
+    ({ z1 with czt := r.1 }, r.2)
+
+/-! ### Instance *contents*
+
+The cache model above identifies an instance with `(key, version, identity)`.  What a propagation
+returns is computed from the *content* of the instance object (`make_instance` filled it in) and may
+update scratch state inside it (Fourier objects).  `Content` makes that explicit: `make` is
+`make_instance` for a full key at a parameter version, `use` is `forward/backward(instance, wavefront)`
+returning the possibly updated content and the result. -/
+
+structure Content (α W R : Type) where
+  make : Key → Nat → α
+  use : α → W → α × R
+
+inductive Res (R : Type)
+  | result (r : R)
+  | error (err : Err)
+  | done
 deriving DecidableEq, Repr
 
-structure Elem where
-  gridDep : Bool
-  wlDep : Bool
-  maxN : Nat
-  getIn : GridId → Option GridId    -- get_input_grid(output_grid)
-  getOut : GridId → Option GridId   -- get_output_grid(input_grid)
+inductive OpC (W : Type)
+  | req (i o : Option GridId) (w : Option WlKey) (wf : W)
+  | clear
+  | set
 
-/-- `_get_cache_keys`; `none` models the ValueError branches. -/
-def getKeys (e : Elem) (i o : Option GridId) (w : Option WlKey) : Option (List Key) :=
-  let gridParts : Option (List (Option GridId × Option GridId)) :=
-    if e.gridDep then
-      match i, o with
-      | none, none => none
-      | none, some b => some [(none, some b)]
-      | some a, none => some [(some a, none)]
-      | some a, some b => some [(some a, some b), (some a, none), (none, some b)]
-    else some [(none, none)]
-  let wlPart : Option (Option WlKey) :=
-    if e.wlDep then (match w with | none => none | some k => some (some k)) else some none
-  match gridParts, wlPart with
-  | some gs, some wk => some (gs.map fun g => ⟨g.1, g.2, wk⟩)
-  | _, _ => none
+/-- The heap: the current content of every instance object.  An object that has not been used yet
+holds what `make_instance` built: `fun v => c.make v.key v.ver`. -/
+def Content.heap0 {α W R} (c : Content α W R) : Inst → α := fun v => c.make v.key v.ver
 
-structure St where
-  cache : List (Key × Inst)   -- OrderedDict, oldest first
-  num : Nat
-  ver : Nat
-deriving Repr
+def stepC {α W R} (e : Elem) (c : Content α W R) (s : St) (heap : Inst → α) :
+    OpC W → St × (Inst → α) × Res R
+  | .req i o w wf =>
+    match getInstanceData e s i o w with
+    | .ok (s', v) =>
+      let r := c.use (heap v) wf
+      (s', (fun v' => if v' = v then r.1 else heap v'), .result r.2)
+    | .error err => (s, heap, .error err)
+  | .clear => (s.clear, heap, .done)
+  | .set => (s.setParam, heap, .done)
 
-def St.clear (s : St) : St := { s with cache := [], num := 0 }
-def St.setParam (s : St) : St := { cache := [], num := 0, ver := s.ver + 1 }
+def runC {α W R} (e : Elem) (c : Content α W R) : St → (Inst → α) → List (OpC W) → List (Res R)
+  | _, _, [] => []
+  | s, heap, op :: ops =>
+    (stepC e c s heap op).2.2 :: runC e c (stepC e c s heap op).1 (stepC e c s heap op).2.1 ops
 
-def lookup (cache : List (Key × Inst)) (k : Key) : Option Inst :=
-  (cache.find? (fun p => p.1 = k)).map (·.2)
+/-- The specification with results: every request is answered by a freshly constructed element
+(fresh cache, fresh instance content) carrying the current parameters. -/
+def specC {α W R} (e : Elem) (c : Content α W R) : Nat → List (OpC W) → List (Res R)
+  | _, [] => []
+  | ver, .req i o w wf :: ops =>
+    (match (step e (St.init ver) (.req i o w)).2 with
+     | .inst k v => Res.result (c.use (c.make k v) wf).2
+     | .error err => Res.error err
+     | .done => Res.done) :: specC e c ver ops
+  | ver, .clear :: ops => .done :: specC e c ver ops
+  | ver, .set :: ops => .done :: specC e c (ver + 1) ops
 
-def lookupFirst (cache : List (Key × Inst)) : List Key → Option Inst
-  | [] => none
-  | k :: ks => match lookup cache k with
-    | some v => some v
-    | none => lookupFirst cache ks
+/-! ### Instances that own a memo cell
 
-def assign (cache : List (Key × Inst)) (k : Key) (v : Inst) : List (Key × Inst) :=
-  if cache.any (fun p => p.1 = k) then cache.map (fun p => if p.1 = k then (k, v) else p)
-  else cache ++ [(k, v)]
+The `FourierFilter` of a `FresnelPropagator` / `AngularSpectrumPropagator` instance keeps its transfer
+function cast to one dtype (`_transfer_function`), rebuilt when a field of another dtype arrives.  The
+content of such an instance is what it was made for plus that cell.  Driver op `reqc` runs `stepC` with
+this content; the harness compares, after every propagation through the real elements, the dtype the
+cell of the instance handed out holds and whether this propagation rebuilt it. -/
 
-/-- `_add_to_cache` (unrepaired): pops `len(keys)` entries; `none` models KeyError. -/
-def addToCache (e : Elem) (s : St) (inst : Inst) (keys : List Key) : Option St :=
-  let evicted : Option St :=
-    if s.num = e.maxN then
-      match s.cache with
-      | [] => none
-      | (_, v) :: rest =>
-        match getKeys e v.i v.o v.w with
-        | none => none
-        | some old =>
-          if rest.length < old.length - 1 then none
-          else some { s with cache := rest.drop (old.length - 1), num := s.num - 1 }
-    else some s
-  evicted.map fun s' =>
-    { s' with cache := keys.foldl (fun c k => assign c k inst) s'.cache, num := s'.num + 1 }
-
-/-- `get_instance_data` (unrepaired): two-stage lookup over *all* keys including partial ones. -/
-def getInstanceData (e : Elem) (s : St) (i o : Option GridId) (w : Option WlKey) :
-    Option (St × Inst) :=
-  match getKeys e i o w with
-  | none => none
-  | some keys =>
-    match lookupFirst s.cache keys with
-    | some v => some (s, v)
-    | none =>
-      let i' := match i with | some a => some a | none => o.bind e.getIn
-      let o' := match o with | some b => some b | none => i'.bind e.getOut
-      match getKeys e i' o' w with
-      | none => none
-      | some keys2 =>
-        match lookupFirst s.cache keys2 with
-        | some v => some (s, v)
-        | none =>
-          let inst : Inst := ⟨i', o', w, s.ver⟩
-          (addToCache e s inst keys2).map fun s' => (s', inst)
-
-/-- what a freshly constructed element would build for this request -/
-def fresh (e : Elem) (ver : Nat) (i o : Option GridId) (w : Option WlKey) : Inst :=
-  let i' := match i with | some a => some a | none => o.bind e.getIn
-  let o' := match o with | some b => some b | none => i'.bind e.getOut
-  ⟨i', o', w, ver⟩
-
-/-- The lens propagator: fixed input grid 1 and fixed output grid 9, whatever is asked. -/
-def lens : Elem :=
-  { gridDep := true, wlDep := true, maxN := 11, getIn := fun _ => some 1, getOut := fun _ => some 9 }
-
-def s0 : St := { cache := [], num := 0, ver := 0 }
-
-/-- Counterexample history: forward on pupil grid 1, then forward on pupil grid 2. -/
-def hist2 : Option (Inst × Inst) := do
-  let (s1, _) ← getInstanceData lens s0 (some 1) none (some 5)
-  let (_, v2) ← getInstanceData lens s1 (some 2) none (some 5)
-  pure (v2, fresh lens 0 (some 2) none (some 5))
-
-end Old
+/-- `make_instance` leaves the cell empty; a propagation with a field of dtype tag `t` reads the cell
+through `Memo.get` and returns the kernel it used (`compute key ver t`: what is computed for this
+instance and this dtype). -/
+def memoContent {τ β : Type} [DecidableEq τ] (compute : Key → Nat → τ → β) :
+    Content (Key × Nat × Memo τ β) τ β where
+  make := fun k ver => (k, ver, ⟨none⟩)
+  use := fun a t =>
+    ((a.1, a.2.1, (a.2.2.get (compute a.1 a.2.1) t).1), (a.2.2.get (compute a.1 a.2.1) t).2)
 
 end HcipyVerif.Cache
